@@ -1197,8 +1197,8 @@ pub fn run(prop: &'static str, tier: Tier) -> ! {
             all.counts.require(&["encodings with non-default choices", "inputs the allocating parser accepts"]);
         }
         "C04" => {
-            fam("short strings", short_strings_family(3, &proto), &mut all);
-            fam("structural strings", struct_strings_family(tier.pick(5, 6), &proto), &mut all);
+            fam("short strings", short_strings_family(tier.pick(3, 4), &proto), &mut all);
+            fam("structural strings", struct_strings_family(tier.pick(5, 7), &proto), &mut all);
             fam("mutations", mutation_family(&seed_set, Tier::Thorough, &proto, tier == Tier::Thorough), &mut all);
             fam("splices", splice_family(&small_seeds, tier.pick(150, 2000), &proto), &mut all);
             fam("tlf replacements", tlf_replacement_family(&seed_set, &proto), &mut all);
